@@ -1014,3 +1014,147 @@ class C12(Spec):
         if plan["tree"]["children"]:
             out.append(dict(plan, tree=dict(plan["tree"], children=[])))
         return out
+
+
+def _gen_flow_stack(r, ids, depth=0):
+    """a random stack of spies / SetTemp / Require wired with AlgoStack, Or, Not and run_always"""
+    n = r.randint(1, 6 if depth == 0 else 3)
+    out = []
+    for _ in range(n):
+        k = r.random()
+        if k < 0.5 or depth >= 2:
+            sid = ids[0]
+            ids[0] += 1
+            ret = None if r.random() < 0.3 else [r.random() < 0.65 for _ in range(r.randint(1, 5))]
+            s = {"a": "Spy", "id": sid, "ret": ret}
+            if r.random() < 0.25:
+                s["run_always"] = True
+            out.append(s)
+        elif k < 0.62:
+            inner = {"a": "AlgoStack", "algos": _gen_flow_stack(r, ids, depth + 1)}
+            out.append({"a": "run_always", "algo": inner} if r.random() < 0.3 else inner)
+        elif k < 0.74:
+            out.append({"a": "Or", "algos": [x if x["a"] != "run_always" else x["algo"] for x in _gen_flow_stack(r, ids, depth + 1)]})
+        elif k < 0.82:
+            sid = ids[0]
+            ids[0] += 1
+            out.append({"a": "Not", "algo": {"a": "Spy", "id": sid, "ret": [r.random() < 0.5 for _ in range(r.randint(1, 4))]}})
+        elif k < 0.91:
+            out.append({"a": "SetTemp", "set": {"selected": r.choice([[], ["A"], ["A", "B"]])} if r.random() < 0.7 else {"other": [None, 1]}})
+        else:
+            out.append({"a": "Require", "pred": r.choice(["nonempty", "empty", "true", "false"]), "item": r.choice(["selected", "selected", "missing"]), "if_none": r.random() < 0.5})
+    return out
+
+
+@register
+class C13(Spec):
+    id = "C13"
+    tiers = {"quick": dict(runs=2500, builds=("py", "cy"), wall=75), "thorough": dict(runs=80000, builds=("py", "cy"), wall=1200)}
+    rule = (
+        "seeded algo programs (stacks up to 3 levels deep of spies whose results are fault-injected per date, run_always placed anywhere incl. on nested stacks, Or, Not, Require on temp entries set by a user algo) are executed by real Strategy.run() "
+        "inside Backtest.run() over several dates, on trees with children; the live invocation log must equal a 30-line reference interpreter written from the statement, temp must be empty at the start of every run, perm must persist, own stack before children, each child once; "
+        "a second family runs RunIfOutOfBounds behind an oracle wrapper on drifting live portfolios; distinct = plan digest; non-trivial = >= 1 algo_fail fired and >= 2 dates"
+    )
+    assumptions = ["thin fit (see DESIGN): the truth table itself is seeded program generation; the simulation adds execution inside real Strategy.run over a history and live drifted weights"]
+
+    def gen(self, r, tier, i):
+        if i % 4 == 3:
+            return self.gen_oob(r, tier)
+        n = r.randint(2, 8)
+        dates, style = feedmod.gen_dates(r, n, "bday")
+        fspec = {"dates": dates, "tickers": ["A", "B"], "prices": [[100.0 + k, 50.0 - k * 0.1] for k in range(n)], "style": style}
+        ids = [1]
+        stacks = {}
+
+        def mk(name, depth, path):
+            st = [{"a": "Spy", "id": 1000 + len(stacks), "ret": None, "first": True}] + _gen_flow_stack(r, ids)
+            node = {"k": "S", "name": name, "cls": "Strategy", "fi": False, "how": "list", "children": [], "algos": st}
+            full = ">".join(path + (name,))
+            stacks[full] = st
+            if depth < 2:
+                for j in range(r.choice([0, 0, 1, 2])):
+                    node["children"].append(mk("c%d%d" % (depth, j), depth + 1, path + (name,)))
+            return node
+
+        root = mk("top", 0, ())
+        cfg = {"integer": True, "comm": None, "capital": 1e6, "fi": False, "obs_price": False, "obs_eod": False, "profile": "stack"}
+        return {"driver": "engine", "cfg": cfg, "tree": root, "feed": fspec, "stacks": stacks, "family": "flow", "fired": {}}
+
+    def gen_oob(self, r, tier):
+        n = r.randint(4, 14)
+        fspec, fired = drive_engine.gen_feed(r, n, r.randint(2, 4), style="bday", faults={}, spread_p=0.0)
+        tickers = fspec["tickers"]
+        sel = r.sample(tickers, r.randint(1, len(tickers)))
+        raw = [r.random() for _ in sel]
+        tot = sum(raw) / r.choice([1.0, 0.8])
+        w = {t: round(x / tot, 4) for t, x in zip(sel, raw)}
+        st = [{"a": "WeighSpecified", "weights": w}]
+        cash = r.random() < 0.15
+        if cash:
+            st.append({"a": "SetTemp", "set": {"cash": 0.1}})
+        st.append({"a": "Or", "algos": [{"a": "RunOnDate", "dates": [fspec["dates"][0]]}, {"a": "Wrap", "inner": {"a": "RunIfOutOfBounds", "args": [r.choice([0.01, 0.05, 0.1, 0.3])]}}]})
+        st.append({"a": "Rebalance"})
+        root = {"k": "S", "name": "top", "cls": "Strategy", "fi": False, "how": "list", "children": [], "algos": st}
+        cfg = {"integer": r.random() < 0.5, "comm": None, "capital": 1e6, "fi": False, "obs_price": False, "obs_eod": False, "profile": "oob"}
+        return {"driver": "engine", "cfg": cfg, "tree": root, "feed": fspec, "family": "oob", "cash": cash, "fired": fired}
+
+    def run(self, bt, plan):
+        from .monitors import c13
+
+        if plan["family"] == "oob":
+            mon = {}
+            sim = drive_engine.EngineSim(bt, plan, set())
+            sim.light = True
+            mon = c13.OOBMonitor(sim)
+            sim.wrap_monitor = mon
+            taps_mod = drive_engine.taps
+            taps_mod.install(bt)
+            exc = None
+            try:
+                sim.setup()
+                sim.root_live = sim.root
+                sim.bkt.run()
+            except Exception as e:  # noqa
+                exc = e
+            finally:
+                taps_mod.set_current(None)
+            viol = sim.viol
+            if exc is not None:
+                viol.append({"check": "c13_exception", "detail": "%s: %s" % (type(exc).__name__, str(exc)[:200]), "flags": {"cash_branch": bool(plan.get("cash")), "exc": type(exc).__name__}})
+            return dict(viol=viol, fired=sim.fired, nontrivial=mon.judged >= 2, info={"oob_judged": mon.judged}, dates=len(plan["feed"]["dates"]), steps=mon.judged)
+        sim = drive_engine.EngineSim(bt, plan, set())
+        sim.light = True
+        sim.lifecycle = []
+
+        def hook(spy, target, t):
+            if target.root is not sim.root:
+                return
+            if spy.spec.get("first"):
+                sim.lifecycle.append((target.full_name, t, [k for k in target.temp], target.perm.get("count", 0)))
+                target.perm["count"] = target.perm.get("count", 0) + 1
+            target.temp["mark_%d" % spy.spec["id"]] = t
+
+        sim.spy_hook = hook
+        drive_engine.taps.install(bt)
+        exc = None
+        try:
+            sim.setup()
+            sim.bkt.run()
+        except Exception as e:  # noqa
+            exc = e
+        finally:
+            drive_engine.taps.set_current(None)
+        viol = sim.viol
+        fails = sum(1 for rec in sim.spy_log if rec[3] and not rec[4])
+        fired = {"algo_fail": fails}
+        if exc is not None:
+            viol.append({"check": "c13_exception", "detail": "%s: %s" % (type(exc).__name__, str(exc)[:200]), "flags": {"cash_branch": False, "exc": type(exc).__name__}})
+            return dict(viol=viol, fired=fired, nontrivial=False, info={})
+        nj = c13.judge_flow(sim, plan)
+        return dict(viol=viol, fired=fired, nontrivial=(fails >= 1 and len(plan["feed"]["dates"]) >= 2), info={"stack_runs_judged": nj, "strategies": len(plan["stacks"])}, dates=len(plan["feed"]["dates"]), steps=len(sim.spy_log))
+
+    def owns(self, check):
+        return check.startswith("c13_")
+
+    def simplifications(self, plan):
+        return []
